@@ -329,7 +329,7 @@ def check(run):
             except Exception as x:
                 finds.setdefault("unpack-pack-raised|%s|%s" % (d.kind, type(x).__name__), {"format": amoco_fmt(d), "definitions": full_format(d), "psize": ps * 8, "data": data.hex(), "error": repr(x)[:200]})
         run.sample({"format": amoco_fmt(defs[0]), "kind": defs[0].kind}, 2)
-    variable_part(run, rng, finds, quick)
+    cnt_rows = variable_part(run, rng, finds, quick)
     for k, v in sorted(finds.items()):
         run.violation(k, "structure definition language: %s" % k, v)
     shards = [rows[i:i + 300] for i in range(0, len(rows), 300)]
@@ -347,6 +347,23 @@ def check(run):
         for k in lists[0][:3]:
             run.violation("model-impl-correspondence|layout", "Gallina layout model and StructCore disagree", {"theorem_or_correspondence": "Amoco.C16.Layout.check_lay", "case": sh[k][:800]}, found_input=False)
     run.cov["layouts_in_coq"] = n_ok
+    # counted fields against the Gallina model
+    csh = [cnt_rows[i:i + 250] for i in range(0, len(cnt_rows), 250)]
+    ctexts = [("cnt_%03d" % i, "From Coq Require Import ZArith List.\nImport ListNotations.\nRequire Import Amoco.C16.Layout Amoco.C16.Fields.\nOpen Scope Z_scope.\n"
+               "Definition cases : list cnt_case := [\n%s\n].\nEval vm_compute in (bad_from check_cnt 0 cases).\n" % ";\n".join(sh)) for i, sh in enumerate(csh)]
+    cres = common.coq_eval_many(run.work / "cnt", ctexts)
+    c_ok = 0
+    for i, sh in enumerate(csh):
+        rc, out = cres["cnt_%03d" % i]
+        lists = common.parse_nat_list(out)
+        if rc != 0 or len(lists) != 1:
+            run.violation("model-eval|counted", "counted-field model evaluation failed", {"theorem_or_correspondence": "Amoco.C16.Fields.check_cnt shard %d" % i, "output": out[-800:]}, found_input=False)
+            continue
+        c_ok += len(sh)
+        for k in lists[0][:3]:
+            run.violation("model-impl-correspondence|counted", "Gallina counted-field model and CntField disagree", {"theorem_or_correspondence": "Amoco.C16.Fields.check_cnt / C16_counted_roundtrip", "case": sh[k][:800]}, found_input=True)
+    run.cov["counted_fields_in_coq"] = c_ok
+    n_ok += c_ok
     run.cov["traces_validated_against_impl"] = n_ok
     run.cov["trusted_base"] += ["harness/c16.py definition generator, C-layout calculator (validated against gcc -m64 / -m32 -malign-double per run), struct module"]
     run.assumptions += ["bit-fields are generated full-width and left out of the gcc comparison (C packs bit-fields into the storage units of neighbouring members; the definition language gives each group its own unit)",
@@ -356,6 +373,7 @@ def check(run):
 
 def variable_part(run, rng, finds, quick):
     """counted, bound, LEB128 and terminated fields: pack(unpack(b)) reproduces the consumed bytes"""
+    cnt_rows = []
     from amoco.system.structs import StructFactory
     from amoco.system.structs.utils import read_leb128, write_uleb128, write_sleb128
     for _ in range(300 if quick else 5000):
@@ -391,18 +409,23 @@ def variable_part(run, rng, finds, quick):
             elif kind == "cnt":
                 ct = rng.choice(["B", "H", "I", "h", "i"])
                 order = rng.choice(["<", ">"])
-                et = rng.choice(["s", "s", "H", "I", "B"])
+                et = rng.choice(["s", "s", "H", "I", "B", "h", "i", "q"])
                 nel = rng.choice([0, 1, 2, 3, 5, 8, 0x101 if ct != "B" and et in "sB" else 4])
                 if et == "s":
                     payload = bytes(rng.getrandbits(8) for _ in range(nel))
                     want = payload
                 else:
-                    want = tuple(rng.getrandbits(8 * struct.calcsize(et)) for _ in range(nel))
+                    want = tuple(rng.getrandbits(8 * struct.calcsize(et)) - ((1 << (8 * struct.calcsize(et) - 1)) if et.islower() else 0) for _ in range(nel))
                     payload = struct.pack(order + "%d%s" % (nel, et), *want)
                 cls = StructFactory(name, "%s*~%s : body\nH : tail" % (et, ct), packed=True, order=order)
                 data = struct.pack(order + ct, nel) + payload + struct.pack(order + "H", 0x9912)
                 run.count((kind, order, ct, et, data))
                 o = cls().unpack(data)
+                if nel:
+                    # what the implementation observed, for the Gallina model of counted fields (coq/C16/Fields.v)
+                    cnt_rows.append("((%s, %s), (%d%%nat, %d%%nat), %s, (%s, %d%%nat))" % (
+                        "true" if order == ">" else "false", "true" if et.islower() and et != "s" else "false", struct.calcsize(ct),
+                        1 if et == "s" else struct.calcsize(et), clist(map(str, data)), clist(["(%d)" % v for v in (o.body if et != "s" else list(o.body))]), len(o) - 2))
                 if nel and ((tuple(o.body) if et != "s" else o.body) != want or o.tail != 0x9912 or o.pack() != data or len(o) != len(data)):
                     finds.setdefault("counted-field|%s%s" % (order, "1" if ct == "B" else "n"), {"format": "%s*~%s" % (et, ct), "order": order, "data": data.hex()[:200],
                                      "body": repr(o.body)[:120], "expected": repr(want)[:120], "tail": o.tail, "packed": o.pack().hex()[:200]})
@@ -424,6 +447,7 @@ def variable_part(run, rng, finds, quick):
                     finds.setdefault("terminated-field", {"data": data.hex(), "text": repr(o.text), "tail": o.tail, "packed": o.pack().hex()})
         except Exception as x:
             finds.setdefault("variable-field-raised|%s|%s" % (kind, type(x).__name__), {"kind": kind, "error": repr(x)[:200]})
+    return cnt_rows
 
 
 def ref_leb(n, signed):
